@@ -61,6 +61,14 @@ class C14(Prop):
                                         f"({r_.get('failed')} operations failed)", cops, cgo, upto=i))
                         break
                     continue
+                if op.startswith("ps.initsparse"):
+                    r_ = kv(g)
+                    if r_.get("lost", "0") != "0" or r_.get("failed", "0") != "0" or not g.startswith("ok"):
+                        out.append(viol(f"a controller started up (Init) on a database file that is mostly unused pages while other controllers' saves were "
+                                        f"waiting for the file: {r_.get('lost')} saves that reported success could not be loaded afterwards "
+                                        f"({r_.get('failed')} operations failed)", cops, cgo, upto=i))
+                        break
+                    continue
                 if op.startswith("ps.parallel"):
                     r_ = kv(g)
                     if r_.get("bad", "0") != "0" or r_.get("failed", "0") != "0":
